@@ -766,7 +766,7 @@ func crossCheck(run *report.Run, all map[string]func() interface{}) {
 
 func main() {
 	run := report.New("C18")
-	run.SetBudget(4*60e9, 30*60e9)
+	run.SetBudget(4*60e9, 20*60e9)
 	all := map[string]func() interface{}{}
 	for k, v := range registry {
 		all[k] = v
